@@ -133,7 +133,7 @@ func (c *Ctx) Explore(fn *ssa.Function, cfg ExploreConfig, tag string) *Explorat
 	}
 	if c.Tier == "thorough" {
 		if cfg.MaxDepth == 0 {
-			cfg.MaxDepth = 5
+			cfg.MaxDepth = 8
 		}
 		if cfg.MaxPaths == 0 {
 			cfg.MaxPaths = 1500000
